@@ -535,6 +535,12 @@ def main():
     lines = []
     for cls, f in seen_known.items():
         lines.append("KNOWN-FINDING: property=%s %s [%s] e.g. %s" % (prop, known_classes[cls]["what"], cls, f["case"][:160]))
+    # every listed finding gets its line; one this run's cases did not reproduce says so
+    not_seen = [c for c in known_classes if c not in seen_known]
+    if ok_cargo and not replay:
+        for cls in not_seen:
+            lines.append("KNOWN-FINDING: property=%s %s [%s] (listed; not reproduced by the cases of this run)" % (
+                prop, known_classes[cls]["what"], cls))
     replay_path = None
     if new_fail or problems:
         violations = max(1, len(new_fail))
@@ -573,7 +579,8 @@ def main():
         rule=meta.get("rule", "cases generated from one SplitMix64 state seeded by VERIF_SEED; distinct by FNV hash of the case line; non-trivial as tagged by the harness"),
         samples=samples,
         correspondence=dict(ran=t2_ran, cases=n_cases, disagreements=n_dis),
-        oracle=dict(checks=stats.get("oracle_checks", 0), failures=len(oracle_fails), known_finding_hits=len(oracle_fails) - len(new_fail) if not widened else None),
+        oracle=dict(checks=stats.get("oracle_checks", 0), failures=len(oracle_fails), known_finding_hits=len(oracle_fails) - len(new_fail) if not widened else None,
+                    known_classes_reproduced=sorted(seen_known), known_classes_not_reproduced=sorted(not_seen)),
         distribution=stats.get("distribution", {}),
         modelled=meta.get("modelled", []),
         not_modelled=meta.get("not_modelled", []),
